@@ -52,9 +52,16 @@ fn culprits(p: &Pipe) -> String {
 }
 
 fn unsub_job(pipe: Pipe, form: Form, len: usize, devs: u32) -> Job {
+  unsub_job_mode(pipe, form, len, devs, false)
+}
+
+/// `unwinding`: the guard is dropped by a scope that unwinds (a caught panic)
+/// instead of by a scope that ends
+fn unsub_job_mode(pipe: Pipe, form: Form, len: usize, devs: u32, unwinding: bool) -> Job {
   let n_in = pipe.n_inputs();
   let timed = pipe.uses_time();
-  Job::new(format!("{} L{len} d<={devs} {}", form_name(form), pipe.show()), move |ch, obs| {
+  let mode = if unwinding { " (guard dropped while unwinding)" } else { "" };
+  Job::new(format!("{} L{len} d<={devs} {}{mode}", form_name(form), pipe.show()), move |ch, obs| {
     let mut r = Run::prepare(n_in, form);
     r.subscribe(&pipe);
     r.world.settle();
@@ -102,7 +109,9 @@ fn unsub_job(pipe: Pipe, form: Form, len: usize, devs: u32) -> Job {
           let guard = e == n_src + 1;
           ch.label(|| if guard { "drop guard".into() } else { "unsubscribe".into() });
           hist.push(if guard { "drop-guard".into() } else { "unsubscribe".into() });
-          if guard {
+          if guard && unwinding {
+            r.sub.drop_guard_unwinding();
+          } else if guard {
             r.sub.drop_guard();
           } else {
             r.sub.unsubscribe();
@@ -162,6 +171,11 @@ pub fn plan(tier: Tier) -> Plan {
       n_pipes += 1;
       jobs.push(unsub_job(Pipe::hot(0).o1(t), form, 6, 2));
     }
+    // a guard is a guard also when its scope unwinds
+    for p in [Pipe::hot(0), Pipe::hot(0).o1(Op1::Delay(1)), Pipe::S(Src::Interval(1)), Pipe::hot(0).o2(Op2::Merge, Pipe::hot(1))] {
+      n_pipes += 1;
+      jobs.push(unsub_job_mode(p, form, 4, 1, true));
+    }
     // scheduler-using stage combined with every other catalogue entry
     for t in &time_ops(false) {
       for o in sync.iter().chain(time_ops(false).iter()) {
@@ -220,7 +234,7 @@ pub fn plan(tier: Tier) -> Plan {
       prop: "C02".into(),
       tier: tier_name(tier),
       engine: "E1 opseq".into(),
-      rule: "pipelines: every scheduler-using catalogue stage alone, combined (before and after) with every other catalogue entry, on either side of / after every two-input operator, over flattening, share and timer-driven sources, plus every synchronous entry; local and _threads forms. Every sequence up to the length bound over {input events, advance one tick, run the i-th ready task (another than the first costs a deviation, as does moving on while a task is ready), unsubscribe / drop the guard (once, at every position)}; after the horizon everything that is still scheduled is run out. Oracle: the probe never grows after unsubscribe() returned; non-trivial = something was delivered".into(),
+      rule: "pipelines: every scheduler-using catalogue stage alone, combined (before and after) with every other catalogue entry, on either side of / after every two-input operator, over flattening, share and timer-driven sources, plus every synchronous entry; local and _threads forms. Every sequence up to the length bound over {input events, advance one tick, run the i-th ready task (another than the first costs a deviation, as does moving on while a task is ready), unsubscribe / drop the guard (once, at every position; for a few pipelines also a guard dropped by an unwinding scope)}; after the horizon everything that is still scheduled is run out. Oracle: the probe never grows after unsubscribe() returned; non-trivial = something was delivered".into(),
       bounds: json!({"len_sync": len, "len_timed": len_t, "deviations": devs, "pipelines": n_pipes}),
       assumptions: vec!["task bodies are atomic; a callback racing with unsubscribe on another thread is E2's part".into()],
     },
